@@ -2,17 +2,25 @@
 
 proof:   EpsieProps/C14.lean (partial: exact-arithmetic invariants and bounds; IEEE overflow only as the
          predicate `Representable`): C14_retry_bound(_monotone/_scale), C14_accept_mass_le, C14_ss_bounded,
-         C14_ss_never_raises, C14_veitch_bounded, C14_veitch_pos_partial, C14_at_loglambda_bounded,
+         C14_ss_never_raises, C14_veitch_bounded, C14_veitch_pos_partial, C14_veitch_guard_per_parameter,
+         C14_veitch_guard_mixed, C14_veitch_default_std_pos, C14_veitch_proportional, C14_at_loglambda_bounded,
          C14_at_shape_admissible, C14_at_scale_admissible, C14_eig_cov_admissible, C14_vmf_kappa_pos,
          C14_vmf_no_raise, C14_vmf_logkappa_bounded, C14_vmf_logkappa_representable, C14_vmf_exact_never_raises,
          and C14_at_stall_exact / C14_at_stall_witness / C14_vmf_norm_underflow_witness
-tie:     suite `adapt` (values of every scale attribute, raises included) + draws per jump counted by a
-         counting wrapper around the generator
+tie:     suite `adapt` (values of every scale attribute, raises included; every class also with its optional
+         constructor arguments at non-default values, the model's constants taken from the case's
+         configuration) + draws per jump counted by a counting wrapper around the generator
 search:  real runs of every adaptive class and variant on flat / needle-like / smooth targets with bounded
          prior support, beta in {0, 1e-3, 1}, adaptation durations 30 ... 3e4, starts in the interior, on
          the faces and on the corners: scale attributes finite / positive / PSD, exceptions, draws per
          jump (a jump needing > 1e5 draws, or > 1e3 per jump over a 100-step block, is a stall; the run is
-         cut off there, never waited for)
+         cut off there, never waited for).  The same with the OPTIONAL constructor arguments at non-default
+         values (variants `o:*`, n >= 2 parameters with unequal boxes): initial_std per parameter and not
+         proportional to the prior widths, target_rate, adaptation_decay (Veitch); cov, max_cov, target_rate
+         (Sivia-Skilling); target_rate, diagonal, componentwise (Andrieu-Thoms); cov0, target_rate,
+         shuffle_rate (eigenvector); target_rate, radec, degs (solid angle) -- on flat targets, needles of
+         relative width 1e-4 (long runs of rejections) and 1e-9 (everything rejected); the widths are tested
+         after every single update
 """
 import json
 
@@ -71,8 +79,12 @@ def run(chk, tier, proof_ok):
     c['evaluations'] = cov['steps'] + scov['steps']
     c['distinct_nontrivial'] = cov['cases'] - cov['divergences'] + scov['runs']
     c['rule'] = ('one evaluation = one real Chain.step() with the scale attributes read (correspondence) or the '
-                 'generator draws counted (search); distinct = distinct (family, variant, target, beta, duration, '
-                 'start, seed) tuples generated from VERIF_SEED; every run is at least as long as its window')
+                 'generator draws counted (search); distinct = distinct (family, variant, optional arguments, target, '
+                 'beta, duration, start, seed) tuples generated from VERIF_SEED; every run is at least as long as its '
+                 'window; the cases with non-default optional constructor arguments are counted under '
+                 'optional_arguments (correspondence and search)')
+    c['optional_arguments'] = {'correspondence': cov.get('optional_arguments'), 'search': scov.get('optional_arguments'),
+                               'updates_where_the_guard_held_some_widths_only': cov.get('guard_fired_for_some_widths_only')}
     c['branches'] = cov['branches']
     chk.assumptions += [
         'partial: the theorems are about the exact-arithmetic recursions; IEEE arithmetic enters only through '
